@@ -149,6 +149,8 @@ class Sig:
         self.cache = {}
         self.expand_depth = expand_depth
         self.edge_limit = 2  # every CFG edge at most twice per path: loops run 0, 1 or 2 times
+        self.keep_err = False  # also report paths that return Err
+        self.label_results = False  # emit ('@res', call_bb, variant) when branching on a call result
         self.stop_after = ()  # token heads after which a path is cut and counted as success
 
     def tokens(self, body):
@@ -198,7 +200,7 @@ class Sig:
             k = t["k"]
             if k == "ret":
                 sh = shapes.get(0)
-                if not (sh and sh[0] == "Err"):
+                if self.keep_err or not (sh and sh[0] == "Err"):
                     key = (toks, sh)
                     if key not in seen_res:
                         seen_res.add(key)
@@ -270,6 +272,16 @@ class Sig:
                     lt = self.classify_switch(body, bb, guard, lab)
                     if lt is not None:
                         extra = (lt,)
+                    elif self.label_results:
+                        srcs = [o[1] for o in body.origins(["c", guard["place"]], depth=10) if o[0] == "call"]
+                        if srcs:
+                            if lab == "otherwise":
+                                named = set(x for (_t, x) in succs if x != "otherwise")
+                                rest = sorted(n for val, n in guard["labels"].items() if val not in named)
+                                vn = "|".join(rest)
+                            else:
+                                vn = guard["labels"].get(lab, lab)
+                            extra = tuple(("@res", sb, vn) for sb in sorted(set(srcs)))
                 if body.blocks[v]["t"]["k"] == "unreachable" and not body.blocks[v]["s"]:
                     continue
                 nu = dict(used)
